@@ -485,7 +485,9 @@ Step == StepEntry \/ StepWrite \/ StepFlush \/ StepFsync \/ StepDirSync \/ StepO
 RECURSIVE CutVisible(_, _, _, _)
 CutVisible(its, i, budget, acc) ==
   IF i > Len(its) THEN acc
-  ELSE IF its[i].gone THEN CutVisible(its, i + 1, budget, acc)
+  \* (items of an unlinked file stay as they are: the unlink is not durable before the next directory
+  \* fsync, and a LATER power loss may bring the file back with the content it had)
+  ELSE IF its[i].gone THEN CutVisible(its, i + 1, budget, Append(acc, its[i]))
   ELSE LET v == FrMin(its[i].vis, budget) IN
          CutVisible(its, i + 1, budget - v,
                     IF v > 0 THEN Append(acc, [its[i] EXCEPT !.vis = v]) ELSE acc)
@@ -525,7 +527,8 @@ CrashPower ==
           /\ osCnt' = LET RECURSIVE S(_)
                           S(n) == IF n = 0 THEN 0 ELSE S(n - 1) + keep[n].vis
                       IN S(Len(keep))
-  /\ UNCHANGED dirDurable
+          \* what the disk holds after a power loss is, by definition, durable
+          /\ dirDurable' = ex2
 
 (* clean close: BufWriter's destructor flushes *)
 Restart ==
